@@ -416,9 +416,14 @@ Definition mon_step (wb : bool) (m : mon) (o : hop) (b : hobs) : mon * option st
           let forgotten := match acked with
                            | Some r => (0 <? r_term r) && negb (existsb (fun a => (d_id a =? r_id r) && (r_term r <=? d_term a)) c1)
                            | None => false end in
+          (* a restart never serves keys at an older version than the old process served them: a stale record left in storage
+             (a save that was overtaken, a delete that failed) is pruned by the load, not served *)
+          let cdig_overlaps (a b : cdig) := (is_nil (d_end a) || key_ltb (d_start b) (d_end a)) && (is_nil (d_end b) || key_ltb (d_start a) (d_end b)) in
+          let restart_older := restart && existsb (fun a => existsb (fun b => cdig_overlaps a b && (d_ver a <? d_ver b)) (m_cache m)) c1 in
           let verdict := match verdict with
                          | Some sg => Some sg
-                         | None => if forgotten then Some "C06:acknowledged-term-not-remembered" else
+                         | None => if restart_older then Some "C06:restart-serves-keys-at-an-older-version-than-before" else
+                                   if forgotten then Some "C06:acknowledged-term-not-remembered" else
                                    if unaccepted then Some "C06:storage-holds-a-record-of-a-heartbeat-that-was-not-accepted" else
                                    if term_back then Some "C06:reported-term-below-an-earlier-reported-term"
                                    else if bad_storage
